@@ -36,6 +36,7 @@ def parseFS (j : Json) : Except String FS := do
       | "d" => pure Node.dir
       | "f" => do pure (Node.file (← a[2]!.getNat?))
       | "l" => do pure (Node.link (← a[2]!.getStr?).toList)
+      | "o" => do pure (Node.other (← a[2]!.getNat?))
       | _ => throw "entry kind"
     entries := (comps p.toList, n) :: entries
     if k == "d" then dns := (comps p.toList, (a[2]!.getNat?).toOption.getD 2) :: dns
@@ -90,7 +91,7 @@ def handle : Handler := fun m j =>
       return obj [("r", toJson (check1 (← gs j "cwd") (← gs j "base") (← gs j "loc")))]
   | "path.loadbase" => some do
       return obj [("r", sJ (loadBase (← gs j "cwd") (← gs j "p"))),
-                  ("join", sJ (loadBaseJoin (← gs j "cwd") (← gs j "p")))]
+                  ("abs", sJ (loadBaseAbs (← gs j "cwd") (← gs j "p")))]
   | "path.loadbase_unfixed" => some do return obj [("r", sJ (loadBaseUnfixed (← gs j "p")))]
   | "path.reads" => some do
       -- one tree, one cwd, many (base, loc, offset, length, entry point) queries
@@ -141,6 +142,7 @@ def handle : Handler := fun m j =>
           | some Node.dir => Json.str "d"
           | some (Node.file i) => Json.str s!"f{i}"
           | some (Node.link t) => Json.str ("l" ++ String.ofList t)
+          | some (Node.other i) => Json.str s!"o{i}"
           | none => Json.str "none"
       return obj [("r", Json.arr (ps.map show1).toArray)]
   | "path.walker" => some do
